@@ -242,6 +242,15 @@ class VlqDecode(_Base):
             ctx.assume(instance(pre, "segments-nonempty", i))
             ctx.assume(instance(pre, "segment-ends-at-zero-quotient", i))
             ctx.assume(instance(pre, "starts-within", i + 1))
+            # cut lemma (proved on its own, then used): undoing the sign folding of the current value gives the value back
+            vi = z3.Select(values.arr, i)
+            unfold = (ui / 2) * z3.If(ui % 2 != 0, -1, 1) == vi
+            ctx.oblige("_base64vlq_decode/loop0/lemma/sign-unfolding-inverts-sign-folding", unfold)
+            ctx.assume(unfold)
+            # and the last sextet of a segment is the whole remaining quotient (its successor quotient is 0)
+            last = z3.Implies(z3.And(i < n, U(ui, m + 1) == 0, U(ui, m) >= 0), z3.And(U(ui, m) == U(ui, m) % 32, U(ui, m) < 32))
+            ctx.oblige("_base64vlq_decode/loop0/lemma/last-sextet-is-the-remaining-quotient", last)
+            ctx.assume(last)
         t = z3.Int("jt!")
         return [
             ("decoded-count-in-range", z3.And(i >= 0, i <= n)),
